@@ -11,7 +11,7 @@ import IronCalc.Book.SheetsProofs
   construction in the model and is checked on the code by the tie (English twin).
 -/
 namespace IronCalc.Book
-open IronCalc.Formula
+open IronCalc.RefTree
 
 /-! ### lookup: local first, then global, case-insensitive, deterministic -/
 
@@ -243,7 +243,7 @@ example : (renameSheet true ⟨id, id⟩
 end IronCalc.Book
 
 namespace IronCalc.Book
-open IronCalc.Formula
+open IronCalc.RefTree
 
 /-! ### F32d: `update_defined_name` lets a rename capture (the new spelling exists in another scope) -/
 
